@@ -490,7 +490,14 @@ pub fn gen(seed: u64, cases: usize, flavour: &str, path: &str) {
                         }
                         used.push(s);
                         // weights including 0, the current weight of a held position and tiny gaps
-                        let w = match g.rng.below(7) {
+                        let w = match g.rng.below(9) {
+                            // a gap of about one share at the gross quote (just under, exactly, just over; over- and under-weight):
+                            // with per-share or percentage costs the cost model's share count then sits at the 0 / 1 / 2 boundary
+                            7 | 8 => {
+                                let k = *g.rng.pick(&[-0.999, -0.97, -0.9, -1.0, -1.001, -1.03, -1.5, -2.0, 0.999, 0.97, 1.0, 1.001, 1.03, 1.1, 1.5, 2.0]);
+                                g.stats.bump("DIFF_gap_about_one_share");
+                                format!("sh:{s}+{}", fb(k))
+                            }
                             0 => fb(0.0),
                             1 => fb(0.25),
                             2 => fb(0.5),
@@ -595,6 +602,13 @@ fn run_case<C: UistClient + StateView>(brkr: &mut UistBroker<C>, id: BacktestId,
                         let (s, off) = match s.split_once('+') { Some((a, b)) => (a, pf(b)), None => (s, 0.0) };
                         let lv = brkr.get_liquidation_value();
                         brkr.get_position_value(s).unwrap_or(0.0) / lv + off
+                    } else if let Some(s) = tok.strip_prefix("sh:") {
+                        // the weight at which the gap is k shares at the gross quote (bid when over-weight, ask when under-weight)
+                        let (s, k) = match s.split_once('+') { Some((a, b)) => (a, pf(b)), None => (s, 0.0) };
+                        let lv = brkr.get_liquidation_value();
+                        let px = brkr.get_quote(s).map(|q| if k < 0.0 { q.bid } else { q.ask }).unwrap_or(0.0);
+                        // a target weight is a fraction of the portfolio: never negative (an unheld symbol cannot be over-weight)
+                        ((brkr.get_position_value(s).unwrap_or(0.0) + k * px) / lv).max(0.0)
                     } else {
                         pf(tok)
                     };
